@@ -2,7 +2,7 @@
 From Coq Require Import Extraction ExtrOcamlBasic.
 From Coq Require Import List NArith ZArith.
 From Coq.Strings Require Import Byte.
-From LC Require Import Bytes Consts Conv Flex LexAct LexRules Lexer Files Store Parser Api Print.
+From LC Require Import Bytes Consts Conv Flex LexAct LexRules Lexer Files Store Parser Api Print Grammar.
 Extraction Language OCaml.
 Set Extraction AccessOpaque.
 Extraction "model.ml"
@@ -16,4 +16,5 @@ Extraction "model.ml"
   Api.cfg_setnint Api.cfg_setnfloat Api.cfg_setnbool Api.cfg_setnstr Api.cfg_setlist Api.cfg_addlist
   Api.cfg_setmulti Api.cfg_setopt_cmd Api.cfg_setcomment Api.cfg_addtsec Api.cfg_rmnsec Api.cfg_rmsec Api.cfg_rmtsec
   Api.cfg_set_validate_func Api.cfg_set_validate_func2 Api.cfg_set_print_func Api.cfg_getsec
-  Print.cfg_print_indent Print.cfg_opt_print.
+  Print.cfg_print_indent Print.cfg_opt_print
+  Grammar.text_meaning.
